@@ -28,6 +28,20 @@ def triple_event(est, x, y, z, metric=None, dtype=None):
           'pd': dyv(pd), 'ps': dyv(ps), 'gm': dyv(gm)}
 
 
+def index_triple_event(est, store, i, j, k, metric=None):
+  """the three points are rows i, j, k of the estimator's preprocessor array `store` (any numeric dtype); the pairs
+  are handed over as INDEX pairs, get_metric gets the rows themselves"""
+  ids = [i, j, k]
+  pts = [np.asarray(store[t], float) for t in ids]
+  given = np.array([[ids[a], ids[b]] for a, b in PAIR_ORDER])
+  pd = est.pair_distance(given)
+  ps = est.pair_score(given)
+  metric = metric or est.get_metric()
+  gm = [metric(store[ids[a]], store[ids[b]]) for a, b in PAIR_ORDER]
+  return {'ev': 'Triple', 'x': dyv(pts[0]), 'y': dyv(pts[1]), 'z': dyv(pts[2]),
+          'pd': dyv(pd), 'ps': dyv(ps), 'gm': dyv(gm)}
+
+
 def views_event(est, X, pairs_idx, reprs=()):
   """X: (n,d) query points, pairs_idx: list of (i,j) 0-based."""
   X = np.asarray(X, float)
